@@ -9,7 +9,6 @@ Import ListNotations.
 Local Opaque enums type_enum to_base from_base to_specific from_specific setters getters init_attrs
   sliver_property_to_graph no_unset_properties child_keys node_id_prop add_interface_descends all_tables_ok.
 
-Definition gids (g : graph) : list str := map g_id (g_nodes g).
 Definition gapp (g : graph) (N : list gnode) (E : list gedge) : graph :=
   {| g_nodes := g_nodes g ++ N; g_edges := g_edges g ++ E |}.
 Definition edges_closed (g : graph) : Prop :=
@@ -348,8 +347,9 @@ Proof.
   - rewrite <- app_assoc. simpl. rewrite <- map_flat_map. exact ND.
 Qed.
 
-Definition writes (add : graph -> option str -> tree -> res graph) (t : tree) : Prop :=
-  forall g parent, (parent = None -> g = empty_graph) ->
+Definition writes (chk : bool) (add : graph -> option str -> tree -> res graph) (t : tree) : Prop :=
+  forall g parent,
+    (chk = true -> parent = None -> check_node_unique g (class_label (t_kind t)) (t_name t) = true) ->
     good g -> (forall pt, parent = Some pt -> In (id_of pt) (gids g)) ->
     NoDup (gids g ++ map id_of (subtrees t)) ->
     add g (option_map id_of parent) t = Ok (grown g parent t).
@@ -432,10 +432,10 @@ Section Writers.
   Hypothesis Hdesc : add_interface_descends = true.
 
   Lemma W_if : forall t, t_kind t = KInterface -> tree_wf t = true ->
-    forallb has_id (subtrees t) = true -> writes add_interface_sliver t.
+    forallb has_id (subtrees t) = true -> writes false add_interface_sliver t.
   Proof.
     apply (kids_ind (fun t => t_kind t = KInterface -> tree_wf t = true ->
-             forallb has_id (subtrees t) = true -> writes add_interface_sliver t)).
+             forallb has_id (subtrees t) = true -> writes false add_interface_sliver t)).
     intros t IH Hk Hwf Hid g parent _ Hg Hp ND.
     assert (Hprops := props_of_ok t Hok Hwf).
     assert (Hnid := has_id_nid t (forallb_subtrees_root _ _ Hid)).
@@ -460,7 +460,7 @@ Section Writers.
 
   (* a service with its interfaces *)
   Lemma W_ns t : t_kind t = KService -> tree_wf t = true ->
-    forallb has_id (subtrees t) = true -> writes add_network_service_sliver t.
+    forallb has_id (subtrees t) = true -> writes true add_network_service_sliver t.
   Proof.
     intros Hk Hwf Hid g parent Hroot Hg Hp ND.
     assert (Hprops := props_of_ok t Hok Hwf).
@@ -480,7 +480,7 @@ Section Writers.
     assert (Hchk : match option_map id_of parent with
                    | None => negb (check_node_unique g (class_label KService) (t_name t))
                    | Some _ => false end = false).
-    { destruct parent; [reflexivity|]. rewrite (Hroot eq_refl). reflexivity. }
+    { destruct parent; [reflexivity|]. cbn [option_map]. rewrite <- Hk. rewrite (Hroot eq_refl eq_refl). reflexivity. }
     rewrite Hchk. rewrite Hk in Hprops. rewrite Hprops. cbn [bind].
     rewrite Hk in Hstep. rewrite (Hstep _ eq_refl eq_refl).
     destruct t as [k nid a c n i]. simpl in Hk. subst k. exact Hfinal.
@@ -502,7 +502,7 @@ Section Writers.
               add_network_service_sliver g' (Some (id_of t)) c = Ok (grown g' (Some t) c)).
     { intros c g' Hc Hg' Hin' NDc. destruct (wf_kids t c Hwf Hc) as [Hwc Hkc]. rewrite Hk in Hkc.
       apply (W_ns c Hkc Hwc (forallb_subtrees_kid _ t c Hid Hc) g' (Some t)); try assumption.
-      - intro E0; discriminate E0.
+      - intros _ E0; discriminate E0.
       - intros p E. inversion E; subst. exact Hin'. }
     assert (Hfinal := after_kids (fun g' u => add_network_service_sliver g' (Some (id_of t)) u) t g (Some pt) Hkids Hg Hp ND).
     assert (Hstep := fun K => node_link_then (A:=graph) K g (Some pt) t (class_label KComponent) rel_has
@@ -515,18 +515,17 @@ Section Writers.
     simpl kids in Hfinal. rewrite ?app_nil_r in Hfinal. destruct n as [l|]; exact Hfinal.
   Qed.
 
-  (* a node with its components and services, into the empty graph *)
-  Lemma W_node t : t_kind t = KNode -> tree_wf t = true ->
-    forallb has_id (subtrees t) = true -> NoDup (map id_of (subtrees t)) ->
-    add_network_node_sliver empty_graph t = Ok (grown empty_graph None t).
+  (* a node with its components and services *)
+  Lemma W_node t g : t_kind t = KNode -> tree_wf t = true ->
+    forallb has_id (subtrees t) = true -> good g -> NoDup (gids g ++ map id_of (subtrees t)) ->
+    check_node_unique g (class_label KNode) (t_name t) = true ->
+    add_network_node_sliver g t = Ok (grown g None t).
   Proof.
-    intros Hk Hwf Hid ND0.
-    assert (ND : NoDup (gids empty_graph ++ map id_of (subtrees t))) by exact ND0.
-    assert (Hg := good_empty).
-    assert (Hp : forall p, @None tree = Some p -> In (id_of p) (gids empty_graph)) by (intros p E; discriminate E).
+    intros Hk Hwf Hid Hg ND Hchk.
+    assert (Hp : forall p, @None tree = Some p -> In (id_of p) (gids g)) by (intros p E; discriminate E).
     assert (Hprops := props_of_ok t Hok Hwf).
     assert (Hnid := has_id_nid t (forallb_subtrees_root _ _ Hid)).
-    destruct (nodup_kids_split empty_graph t ND) as [Hfresh _].
+    destruct (nodup_kids_split g t ND) as [Hfresh _].
     set (addk := fun g' u => match t_kind u with
                              | KComponent => add_component_sliver g' (id_of t) u
                              | _ => add_network_service_sliver g' (Some (id_of t)) u end).
@@ -536,17 +535,17 @@ Section Writers.
       unfold addk. destruct Hkc as [Hkc|Hkc]; rewrite Hkc.
       - apply W_comp; try assumption. apply (forallb_subtrees_kid _ t c Hid Hc).
       - apply (W_ns c Hkc Hwc (forallb_subtrees_kid _ t c Hid Hc) g' (Some t)); try assumption.
-        + intro E0; discriminate E0.
+        + intros _ E0; discriminate E0.
         + intros p E. inversion E; subst. exact Hin'. }
-    assert (Hfinal := after_kids addk t empty_graph None Hkids Hg Hp ND).
+    assert (Hfinal := after_kids addk t g None Hkids Hg Hp ND).
     unfold add_network_node_sliver, need_id. rewrite Hnid. cbn [bind].
-    replace (check_node_unique empty_graph (class_label KNode) (t_name t)) with true by reflexivity.
+    rewrite Hchk.
     cbn [negb]. rewrite Hk in Hprops. rewrite Hprops. cbn [bind].
-    rewrite (add_node_ok empty_graph (id_of t) (class_label KNode) (props_of t) Hfresh). cbn [bind].
+    rewrite (add_node_ok g (id_of t) (class_label KNode) (props_of t) Hfresh). cbn [bind].
     replace (mknode (id_of t) (class_label KNode) (props_of t)) with (rec_of t)
       by (unfold rec_of, mknode; rewrite Hk; reflexivity).
     change (@nil gedge) with (plink None t).
-    set (G1 := gapp empty_graph [rec_of t] (plink None t)) in *.
+    set (G1 := gapp g [rec_of t] (plink None t)) in *.
     destruct t as [k [id|] a c n i]; [|discriminate Hnid]. simpl in Hk. subst k. simpl t_comps. simpl t_nss.
     simpl kids in Hfinal. rewrite app_nil_r in Hfinal. rewrite foldM_app in Hfinal.
     assert (Hc' : forall u, In u (olist c) -> t_kind u = KComponent).
@@ -564,14 +563,15 @@ Section Writers.
     cbn [bind]. exact Hfinal.
   Qed.
 
-  Lemma W_link t : t_kind t = KLink -> tree_wf t = true -> has_id t = true ->
-    add_network_link_sliver empty_graph t [] = Ok (grown empty_graph None t).
+  Lemma W_link t g : t_kind t = KLink -> tree_wf t = true -> has_id t = true ->
+    ~ In (id_of t) (gids g) ->
+    add_network_link_sliver g t [] = Ok (grown g None t).
   Proof.
-    intros Hk Hwf Hid.
+    intros Hk Hwf Hid Hfresh.
     assert (Hprops := props_of_ok t Hok Hwf). assert (Hnid := has_id_nid t Hid).
     unfold add_network_link_sliver, need_id. rewrite Hnid. cbn [bind mapM].
     rewrite Hk in Hprops. rewrite Hprops. cbn [bind].
-    rewrite (add_node_ok empty_graph (id_of t) (class_label KLink) (props_of t)) by (intros []).
+    rewrite (add_node_ok g (id_of t) (class_label KLink) (props_of t) Hfresh).
     cbn [bind]. unfold foldM. cbn [fold_left].
     unfold grown. rewrite subtrees_eq, edges_of_eq.
     destruct t as [k nid a c n i]. simpl in Hk. subst k. reflexivity.
